@@ -15,6 +15,7 @@ Independently of the model the crash clause of the property statement is monitor
 reopened journal (lib.crash_monitor).  The known head-drop loss D15 (deleteEntriesTo = clear + re-add)
 is only counted here (`d15_headdrop_losses`); it is reported by witness.d15_journal_headdrop_kill."""
 import os
+import shutil
 import time
 
 from harness.corr import journal_lib as lib
@@ -126,8 +127,10 @@ class Walker(object):
         # (B) really kill
         if do_kill:
             cov.hit("kills_executed")
-            imgB, killed, done = lib.real_kill(jm, self.killpath, snap, pending, op, k, t)
+            imgB, killed, done, exc = lib.real_kill(jm, self.killpath, snap, pending, op, k, t)
             lib.remove_files(self.killpath)
+            if exc is not None:
+                self.violate("journal.%s:exception:%s" % (kind, type(exc).__name__), "%s raised %r" % (op[:3], exc), inp)
             if killed != (k < np_) or imgB != img:
                 which = [n for n, a, b in zip(("journal", ".meta", ".meta.tmp"), img, imgB) if a != b]
                 self.disagree("kill: files after a real kill differ from snapshot + recorded primitives", "-",
@@ -193,7 +196,12 @@ class Walker(object):
             else:
                 op = rng.choice([["clear"], ["setci", 77], ["timer"]])
             ops.append(op)
-            prims = r2.apply(op)
+            try:
+                prims = r2.apply(op)
+            except Exception as e:                       # noqa
+                self.violate("journal.%s:exception:%s" % (op[0], type(e).__name__),
+                             "after kill+reopen, %s raised %r" % (op[:3], e), dict(inp, then=ops))
+                return
             reply = self.model2.ask(lib.op_line(op))
             mine = "ok " + r2.summary(prims)
             lib.ref_apply(ref, op)
@@ -210,10 +218,15 @@ class Walker(object):
     def walk(self, case, rng, kill_p, cont_p):
         jm, model, cov = self.jm, self.model, self.cov
         lib.remove_files(self.path)
-        real = lib.Real(jm, self.path)
+        try:
+            real = lib.Real(jm, self.path)
+        except Exception as e:                           # noqa
+            self.violate("journal.open:exception:" + type(e).__name__, "creating a fresh journal raised %r" % (e,),
+                         {"pre": [], "op": ["timer"], "k": 0, "t": 0})
+            return
         if model is not None:
             model.new()
-        ref, allowed, pre = [], {1}, []
+        ref, allowed, pre = [], set(), []          # values passed to setRaftCommitIndex so far
         crash = case.get("crash", "all")
         source = case.get("source")
         aops = case.get("ops")
@@ -270,7 +283,9 @@ class Walker(object):
                             for t in t_values(L, rng, case.get("all_t", False)):
                                 do_kill = case.get("kill_all", False) or rng.random() < kill_p
                                 crng = rng if rng.random() < cont_p else None
-                                self.point(list(pre), op, snap, pending, prims, final, old, set(allowed), k, t, do_kill, crng)
+                                # the default 1 is admissible only while no .meta file had been stored
+                                adm = set(allowed) | ({1} if snap[1] is None else set())
+                                self.point(list(pre), op, snap, pending, prims, final, old, adm, k, t, do_kill, crng)
                     reply = model.ask(lib.op_line(op)) if model is not None else None
                 if reply is not None:
                     mine = "ok " + real.summary(prims)
@@ -331,7 +346,7 @@ def run(ctx):
         for c in directed_cases():
             w.walk(c, ctx.rng("journal_crash/" + c["name"]), 1.0, 0.3)
             cov.hit("sequences.directed")
-        n_rand = ctx.scale(40, 2000)
+        n_rand = ctx.scale(40, 1600)
         budget = ctx.scale(20.0, 230.0)       # safety net only
         done = 0
         for i in range(n_rand):
@@ -397,8 +412,11 @@ def replay_crash(jm, tmp, rp):
     """re-run one crash point with a REAL kill; returns (monitor verdict or None, description)"""
     path = os.path.join(tmp, "j")
     lib.remove_files(path)
-    real = lib.Real(jm, path)
-    ref, allowed = [], {1}
+    try:
+        real = lib.Real(jm, path)
+    except Exception as e:                               # noqa
+        return ("journal.open:exception:" + type(e).__name__, "creating a fresh journal raised %r" % (e,)), False
+    ref, allowed = [], set()
     try:
         for op in rp.get("pre", []):
             if op[0] == "reopen":
@@ -413,10 +431,15 @@ def replay_crash(jm, tmp, rp):
             allowed.add(op[1])
         snap = lib.snapshot(path)
         pending = real.pending_ci()
+        if snap[1] is None:
+            allowed.add(1)
     finally:
         real.abandon()
     kp = os.path.join(tmp, "k")
-    img, killed, done = lib.real_kill(jm, kp, snap, pending, op, rp.get("k", 0), rp.get("t", 0))
+    img, killed, done, exc = lib.real_kill(jm, kp, snap, pending, op, rp.get("k", 0), rp.get("t", 0))
+    if exc is not None:
+        lib.remove_files(kp)
+        return ("journal.%s:exception:%s" % (op[0], type(exc).__name__), "%s raised %r" % (op[:3], exc)), killed
     o = lib.open_image(jm, kp, img)
     try:
         if "err" in o:
@@ -425,7 +448,10 @@ def replay_crash(jm, tmp, rp):
         if m is None and rp.get("then"):
             r2, ref2 = o["real"], list(o["ents"])
             for op2 in rp["then"]:
-                r2.apply(op2)
+                try:
+                    r2.apply(op2)
+                except Exception as e:                   # noqa
+                    return ("journal.%s:exception:%s" % (op2[0], type(e).__name__), "%s raised %r" % (op2[:3], e)), killed
                 lib.ref_apply(ref2, op2)
             if r2.entries() != ref2:
                 m = ("journal.%s:list-divergence-after-crash-recovery" % rp["then"][-1][0], "journal %s list %s"
@@ -441,7 +467,11 @@ def replay_crash(jm, tmp, rp):
 def replay(ctx, violation):
     jm = lib.load_journal(ctx.repo)
     rp = violation.get("replay") or {}
-    m, killed = replay_crash(jm, ctx.tmpdir(), rp)
+    tmp = ctx.tmpdir()
+    try:
+        m, killed = replay_crash(jm, tmp, rp)
+    finally:
+        shutil.rmtree(tmp, ignore_errors=True)      # ./check --replay does not clean up the ctx
     if m is not None and m[0] == "D15":
         m = (lib.D15_SIGNATURE, m[1])
     return {"violated": m is not None, "signature": m and m[0], "what": m and m[1], "killed": killed, "tree": ctx.repo}
